@@ -16,7 +16,7 @@
 From Coq Require Import ZArith List Bool Permutation Lia.
 Import ListNotations.
 From Urwid Require Import PyBase PyList ColourBase ColourStr colours_gen Colours
-     ColoursTables ColoursBits ColoursSpec ColoursRound ColoursMore ColoursRgb ColoursStrFacts ColoursLex ColoursStrThm.
+     ColoursTables ColoursBits ColoursSpec ColoursRound ColoursMore ColoursRgb ColoursStrFacts ColoursLex ColoursStrThm ColoursGenMeth ColoursGenThm.
 Open Scope Z_scope.
 
 (* ===== clause 1: the reported descriptions rebuild an equal specification; equal => equal hashes ===== *)
@@ -343,6 +343,89 @@ Example odd_strings :
      = attrspec_new_s [104; 53] [] 88
   /\ attrspec_new_s [35; 103; 103; 103; 103; 103; 103] [] TRUE_DEPTH = RErr AttrSpecError 2.   (* '#gggggg' *)
 Proof. vm_compute. repeat split. Qed.
+
+(* ===== the METHODS of AttrSpec, translated from the source =====
+   __init__, __set_foreground (the loop over split(","), with continue / raise), __set_background,
+   _foreground_color, foreground, background, get_rgb_values, copy_modified and __eq__ are re-translated
+   from display/common.py on every run (set_foreground_gen ... in Gen/colours_gen.v; self.__value is
+   threaded as a state variable, raise statements are numbered by their message).  The extracted model
+   that is compared with the implementation runs THESE functions; the hand-written model of
+   Model/Colours.v is only the form in which the theorems are proved, and it is equal to them: *)
+Theorem translated_methods_are_the_model :
+  (forall v fg, set_foreground_gen v fg = set_foreground_s v fg) /\
+  (forall v bg, set_background_gen v bg = set_background_s v bg) /\
+  (forall fg bg D, attrspec_init_gen fg bg D = attrspec_new_s fg bg D) /\
+  (forall v, foreground_color_gen v = foreground_color_s v) /\
+  (forall v, foreground_gen v = foreground_s v) /\
+  (forall v, background_gen v = background_s v) /\
+  (forall v, get_rgb_values_gen v = rgb_list (get_rgb_values v)) /\
+  (forall v w, attrspec_eq_gen v w = spec_eq v w).
+Proof.
+  exact (conj set_foreground_gen_ok (conj set_background_gen_ok (conj attrspec_init_gen_ok
+        (conj foreground_color_gen_ok (conj foreground_gen_ok (conj background_gen_ok
+        (conj get_rgb_values_gen_ok attrspec_eq_gen_ok))))))).
+Qed.
+Print Assumptions translated_methods_are_the_model.
+
+(* so, on the translated code, for every pair of strings and every depth: *)
+Theorem translated_roundtrip :
+  forall D fg bg v, attrspec_init_gen fg bg D = ROk v ->
+    exists fs bs, foreground_gen v = Ok fs /\ background_gen v = Ok bs /\
+      attrspec_init_gen fs bs D = ROk v /\ attrspec_init_gen fs bs (attr_colors v) = ROk v.
+Proof. exact gen_roundtrip. Qed.
+Print Assumptions translated_roundtrip.
+
+Theorem translated_reject_is_attrspecerror :
+  forall fg bg D e w, attrspec_init_gen fg bg D = RErr e w -> e = AttrSpecError /\ 1 <= w <= 6.
+Proof. exact gen_reject. Qed.
+Print Assumptions translated_reject_is_attrspecerror.
+
+Theorem translated_rgb_matches_xterm :
+  forall D fg bg v, attrspec_init_gen fg bg D = ROk v ->
+    exists fc bs,
+      foreground_gen v = Ok (fc ++ settings_suffix v) /\ background_gen v = Ok bs /\
+      get_rgb_values_gen v = Ok (flat3 (expected_rgb (attr_colors v) (lex_color (mode_of D) fc)) ++
+                                 flat3 (expected_rgb (attr_colors v) (lex_color (mode_of D) bs))).
+Proof. exact gen_rgb. Qed.
+Print Assumptions translated_rgb_matches_xterm.
+
+(* copy_modified: with no argument it returns an equal specification; in general it is the constructor
+   on the given strings / depth, the missing ones taken from what the specification reports *)
+Theorem copy_modified_is_identity :
+  forall D fg bg v, attrspec_init_gen fg bg D = ROk v -> copy_modified_gen v None None None = ROk v.
+Proof. exact copy_modified_identity. Qed.
+Print Assumptions copy_modified_is_identity.
+
+Theorem copy_modified_is_constructor :
+  forall v fg bg colors,
+  copy_modified_gen v fg bg colors =
+  match (match fg with Some s => Ok s | None => foreground_gen v end) with
+  | Err e => RErr e 0
+  | Ok f =>
+      match (match bg with Some s => Ok s | None => background_gen v end) with
+      | Err e => RErr e 0
+      | Ok b => attrspec_init_gen f b (match colors with Some c => c | None => attr_colors v end)
+      end
+  end.
+Proof. exact copy_modified_spec. Qed.
+Print Assumptions copy_modified_is_constructor.
+
+(* the hex split of get_rgb_values: the three bytes of f"{n:06x}" *)
+Theorem hex_split_bytes :
+  forall n, 0 <= n < 16777216 ->
+    py_int 16 (str_slice (fmt_x_pad 6 n) 0 2) = Some (n / 65536) /\
+    py_int 16 (str_slice (fmt_x_pad 6 n) 2 4) = Some ((n / 256) mod 256) /\
+    py_int 16 (str_slice (fmt_x_pad 6 n) 4 6) = Some (n mod 256).
+Proof. exact hex6_slices. Qed.
+Print Assumptions hex_split_bytes.
+
+Example translated_somewhere :
+  (* AttrSpec('h5, blink', '#123456', 2**24): foreground '#cd00cd,blink', rgb (205,0,205, 18,52,86), copy equal *)
+  exists v, attrspec_init_gen [104; 53; 44; 32; 98; 108; 105; 110; 107] [35; 49; 50; 51; 52; 53; 54] TRUE_DEPTH = ROk v /\
+    foreground_gen v = Ok [35; 99; 100; 48; 48; 99; 100; 44; 98; 108; 105; 110; 107] /\
+    get_rgb_values_gen v = Ok [Some 205; Some 0; Some 205; Some 18; Some 52; Some 86] /\
+    copy_modified_gen v None None None = ROk v.
+Proof. eexists. split; [vm_compute; reflexivity|]. vm_compute. repeat split. Qed.
 
 (* ===== non-vacuity ===== *)
 Example roundtrip_somewhere :
